@@ -38,7 +38,8 @@ func (p *c17) Rule() string {
 		"(contact_age contacted contacts xcontact my_flow steps value2 tel_number categories … : exact, extended, truncated, prefixed, doubled, digit-first forms of contact flow step extra parent child date channel, of the new top levels and of the property / URN scheme names) " +
 		"and uses them in every scope form (flow.X flow.X.value .category .text .time, child.X…, parent.X…, extra.flow.X…, contact.X flow.contact.X step.contact.X parent.contact.X child.contact.X, extra.X extra.X.k extra.k.X extra.k.X.j) as @identifier, alone in @(…), as an operand and as a call argument; " +
 		"the operand is bound where the reference denotes it (results / child.results / parent.results, fields / parent.fields / child.fields, legacy_extra), next to a neutrally named twin; the built-in contact properties, URN forms, channel and step.attachments.N are bound too. " +
-		"Each template is migrated by expressions.MigrateTemplate and evaluated by excellent.Evaluator.Template in a context binding the migrated references; " +
+		"A widening step with its own stream puts placeholder-like content ($1 $2 $3 dollar amounts, %s %[2]s, {0}) into a string literal (whole, in front, behind, inside) and makes the text after an @identifier / lone @(reference) begin with periods that do not continue it (..thanks ...and . ok .? and a trailing .). " +
+		"Each template is migrated by expressions.MigrateTemplate and evaluated by excellent.Evaluator.Template in a context binding the migrated references (the migrated template is cut into text and expressions by the check's own scanner); " +
 		"the value is compared with an independent reference evaluation of the legacy tree (numbers as decimals rounded to 6 places, text exactly, booleans ignoring the TRUE/true rendering change, dates through DAY/MONTH/YEAR/WEEKDAY/DAYS). " +
 		"Every mismatch is shrunk and put through repair experiments (write the number literals canonically; count a negative word index from the front; use the neutrally named twin of a drawn name; parenthesise each call/operator of the legacy source in turn; replace backslashes / quotes in literals; separate an expression from the following text) which give the signature. Non-trivial case = at least one template whose value was compared and in which a function call is nested under an operator or inside another call; " +
 		"distinct = distinct bundle text."
@@ -83,6 +84,9 @@ func (p *c17) Floors(tier string) []string {
 		"reference.builtin_property.compared", "reference.drawn_name.compared", "reference.colliding_name.compared",
 		"reference.colliding_name.identifier_form.compared", "reference.colliding_name.alone_in_expression.compared",
 		"reference.colliding_name.as_call_argument.compared", "reference.colliding_name.as_operand.compared",
+		"literal.placeholder_like.compared", "literal.placeholder_like.inside_reshaped_call.compared",
+		"template.identifier_then_period.compared", "template.identifier_then_periods_and_name.compared",
+		"template.lone_reference_then_periods_and_name.compared", "oracle.independent_scanner.templates_scanned",
 	}
 }
 
@@ -276,7 +280,18 @@ func (ck *checker) check(t *tmpl, primary bool) (o outcome) {
 	}
 
 	// clause 1: every expression of the migrated template parses
-	toks := scanTokens(migrated, ck.tops)
+	// (the migrated template is cut into text and expressions by the check's own scanner, refScan; goflow's scanner is
+	// only consulted to record whether the two agree)
+	toks := refScan(migrated, ck.tops)
+	if primary {
+		res.Count("oracle.independent_scanner.templates_scanned", 1)
+		func() {
+			defer func() { _ = recover() }()
+			if !sameToks(toks, scanTokens(migrated, ck.tops)) {
+				res.Count("oracle.independent_scanner.library_scanner_differs", 1)
+			}
+		}()
+	}
 	for _, tk := range toks {
 		if !tk.expr {
 			continue
@@ -806,6 +821,16 @@ func (ck0 *checker) classify(t *tmpl, first outcome) classification {
 		return classification{"literal-escape|quote", "a legacy string literal containing a doubled quote does not denote the same characters after migration: " + so.source + " → " + so.migrated + "; " + so.detail, w}
 	}
 
+	if c, changed := mapStrings(root, func(s string) string {
+		if !looksLikePlaceholder(s) {
+			return s
+		}
+		return strings.NewReplacer("$", "S", "%", "P", "{", "<").Replace(s)
+	}); changed && passes(c) {
+		w["repair"] = "replacing $ % { in the string literals that look like a placeholder ($2, %s, {0}) by other characters makes the migration correct"
+		return classification{"literal-rewritten|placeholder-like-text", "a legacy string literal whose content looks like a positional placeholder does not denote the same characters after migration: " + so.source + " → " + so.migrated + "; " + so.detail, w}
+	}
+
 	// 3b. parenthesisation experiments: wrap each call / operator node in turn
 	type repair struct {
 		kind   string
@@ -944,16 +969,33 @@ func (ck *checker) classifyTemplate(t *tmpl, first outcome, w map[string]any) cl
 	}
 	if changed && ck.check(sep, false).clause == "" {
 		// smallest witness: the first expression + following text that fails on its own
+		var wexpr *seg
+		wtext := ""
 		for i, s := range t.segs {
 			if s.expr != nil && i+1 < len(t.segs) && t.segs[i+1].expr == nil {
 				small := &tmpl{segs: []seg{s, t.segs[i+1]}, spaced: true}
 				if o := ck.check(small, false); o.clause != "" {
 					w["shrunk_legacy"], w["shrunk_migrated"], w["shrunk_detail"] = o.source, o.migrated, o.detail
+					sc := s
+					wexpr, wtext = &sc, t.segs[i+1].text
 					break
 				}
 			}
 		}
 		w["repair"] = "a space between the expression and the following text makes the migration correct"
+		if wexpr != nil && !continuesIdentifier(wtext) {
+			// the text could not have been read as part of an identifier (it begins with a period that is not followed by a
+			// name character, …): not the unwrapping of @(reference) in front of a name
+			form := "expression"
+			if wexpr.expr.k == kRef && wexpr.ident && !wexpr.expr.paren {
+				form = "identifier"
+			} else if wexpr.expr.k == kRef {
+				form = "lone-reference"
+			}
+			w["expression_form"] = form
+			return classification{"expression-extent|following-text-absorbed",
+				"text that follows an expression and cannot continue an identifier is not kept as text outside the expression: " + fmt.Sprint(w["shrunk_legacy"]) + " → " + fmt.Sprint(w["shrunk_migrated"]) + "; " + fmt.Sprint(w["shrunk_detail"]), w}
+		}
 		return classification{"reference-unwrapped|runs-into-following-text",
 			"@(reference) is migrated to @reference without parentheses and swallows the text that follows it: " + fmt.Sprint(w["shrunk_legacy"]) + " → " + fmt.Sprint(w["shrunk_migrated"]), w}
 	}
@@ -1006,7 +1048,7 @@ func (cs *caseState) runTemplate(ck *checker, t *tmpl, tag string) outcome {
 		}
 		marks = append(marks, m)
 	}
-	for _, s := range t.segs {
+	for si, s := range t.segs {
 		if s.expr == nil {
 			if s.text != "" {
 				hasText = true
@@ -1014,8 +1056,21 @@ func (cs *caseState) runTemplate(ck *checker, t *tmpl, tag string) outcome {
 			if strings.Contains(s.text, "@@") {
 				hasAtAt = true
 			}
+			if si > 0 && t.segs[si-1].expr != nil && t.segs[si-1].expr.k == kRef && !t.segs[si-1].expr.paren {
+				form := "lone_reference"
+				if t.segs[si-1].ident {
+					form = "identifier"
+				}
+				if period, thenName := periodsAfterExpression(s.text); period {
+					mark("template." + form + "_then_period")
+					if thenName {
+						mark("template." + form + "_then_periods_and_name")
+					}
+				}
+			}
 			continue
 		}
+		markPlaceholderLiterals(s.expr, false, mark)
 		if s.ident && s.expr.k == kRef {
 			hasIdent = true
 		}
@@ -1149,6 +1204,20 @@ func (cs *caseState) runTemplate(ck *checker, t *tmpl, tag string) outcome {
 	return o
 }
 
+// markPlaceholderLiterals marks string literals whose content looks like a positional placeholder, and whether they sit
+// (at any depth) inside an argument of a function that the migration re-shapes and that has several arguments.
+func markPlaceholderLiterals(n *node, inReshaped bool, mark func(string)) {
+	if n.k == kStr && looksLikePlaceholder(n.lit) {
+		mark("literal.placeholder_like")
+		if inReshaped {
+			mark("literal.placeholder_like.inside_reshaped_call")
+		}
+	}
+	for _, a := range n.args {
+		markPlaceholderLiterals(a, inReshaped || (n.k == kCall && reshapedMultiArg[n.fn]), mark)
+	}
+}
+
 func genOpts(r *fw.Rand) *expressions.MigrateOptions {
 	switch r.Intn(10) {
 	case 0:
@@ -1228,6 +1297,21 @@ func (p *c17) Run(c fw.Case) fw.Result {
 		}
 		if tag == "focused" {
 			nf++
+		}
+		// widening step (widen.go), from a stream of its own; kept only if the template stays inside the reference domain
+		if wt := widen(fw.NewRand(c.Seed, "C17-widen", c.Index*1024+j), t); wt != nil {
+			ok := true
+			for _, e := range wt.exprs() {
+				if _, d := ck.ref.eval(e); !d {
+					ok = false
+				}
+			}
+			if ok {
+				t = wt
+				res.Count("generator.widened", 1)
+			} else {
+				res.Count("generator.widening_dropped_outside_domain", 1)
+			}
 		}
 		cs.runTemplate(ck, t, tag)
 	}
